@@ -173,7 +173,77 @@ theorem ok_static (c : Ctx) (cs : CtxSpec) (hs : cs.srcStatic = true) (hok : cs.
   simp only [hs, if_true, hokE, Bool.false_eq_true, if_false]
   exact setStatic_reads _ _ _
 
+/-! ### The latest assignment also decides COMPARISONS (not only prints) -/
+
+/-- A name that has just become a counter compares as that integer — whatever it held before (a struct with an
+    inspector of its own, a list, bytes: the sixth round's seeded change C02-r6m1 kept the old inspector). -/
+theorem cmp_after_setCounter (c : Ctx) (k : Bytes) (n : Int) (o : Op) (right : Bytes) (hk : splitDots k = [k]) :
+    ((c.setCounter k n).cmp k o right).1 = ((Val.int n).cmpLit o right).getD false ∧
+    ((c.setCounter k n).cmp k o right).2.err = none := by
+  unfold Ctx.cmp cmpCore cmpErrCore
+  simp only [hk, setCounter_reads]
+  exact ⟨trivial, trivial⟩
+
+/-- A name that has just been given a static value compares through the static inspector on that value. -/
+theorem cmp_after_setStatic (c : Ctx) (k : Bytes) (v : Val) (o : Op) (right : Bytes) (hk : splitDots k = [k]) :
+    ((c.setStatic k v).cmp k o right).1 = (insCompare .static v [] o right).getD false := by
+  unfold Ctx.cmp cmpCore
+  simp only [hk, setStatic_reads]
+
+/-- A name that has just been given non-empty bytes compares byte-wise with them. -/
+theorem cmp_after_setBytes (c : Ctx) (k : Bytes) (b : Bytes) (o : Op) (right : Bytes) (hk : splitDots k = [k]) (hb : b ≠ []) :
+    ((c.setBytes k b).cmp k o right).1 = ((Val.bytes b).cmpLit o right).getD false := by
+  unfold Ctx.cmp cmpCore
+  simp only [hk, setBytes_reads]
+  cases b with
+  | nil => exact absurd rfl hb
+  | cons x xs => simp
+
+/-! ### Loop bindings: the counter loop assigns its variable also when it makes no iteration -/
+
+/-- A counter loop whose condition fails at once makes no iteration, does not abort, and has assigned its start value
+    to its variable (the sixth round's seeded change C15-r6m1 dropped this assignment). -/
+theorem cloop_no_iteration (run : St → Res) (ls : CLoopSpec) (f : Nat) (v lim : Int) (n : Nat) (s : St)
+    (h : loopAllows ls.condOp v lim = some false) :
+    cloopLoop run ls (f+1) v lim n s = ⟨n, { s with c := s.c.setStatic ls.cnt (.int v) }, false⟩ := by
+  simp only [cloopLoop, h]
+
+/-- … so after the loop the variable reads the start value, whatever the name held before. -/
+theorem cloop_no_iteration_binds (run : St → Res) (ls : CLoopSpec) (f : Nat) (v lim : Int) (n : Nat) (s : St)
+    (h : loopAllows ls.condOp v lim = some false) :
+    getVar (cloopLoop run ls (f+1) v lim n s).st.c.vars ls.cnt = some (.ins (.int v) .static) := by
+  rw [cloop_no_iteration run ls f v lim n s h]
+  exact setStatic_reads _ _ _
+
+/-- … and its for-else branch starts in that state: it reads the start value too. -/
+theorem cloop_else_sees_binding (run re : St → Res) (ls : CLoopSpec) (f : Nat) (v lim : Int) (s : St)
+    (h : loopAllows ls.condOp v lim = some false) :
+    cloopAfter run (some re) (f+1) ls (some (v, lim)) s = re { s with c := s.c.setStatic ls.cnt (.int v) } := by
+  simp only [cloopAfter, cloop_no_iteration run ls f v lim 0 s h, afterLoop]
+  simp
+
+/-- When the loop ends because its condition has become false after an iteration, the variable holds the first
+    value that fails the condition (one step: the last iteration's successor). -/
+theorem cloop_last_step_binds (run : St → Res) (ls : CLoopSpec) (f : Nat) (v lim : Int) (n : Nat) (s : St)
+    (hinc : ls.cntOp = .inc ∨ ls.cntOp = .dec)
+    (hgo : loopAllows ls.condOp v lim = some true) (hstop : loopAllows ls.condOp (stepVal ls.cntOp v) lim = some false)
+    (hsep : (sepWrite n ls.sep { s with c := s.c.setStatic ls.cnt (.int v) }).err = none)
+    (st : St)
+    (hbody : iterAfterBody (let rs1 := clrErrIf (decide (n > 0) && !ls.sep.isEmpty) (sepWrite n ls.sep { s with c := s.c.setStatic ls.cnt (.int v) }).st
+      let rb0 := run { rs1 with c := { rs1.c with chQB := true } }
+      ({ rb0 with st := { rb0.st with c := { rb0.st.c with chQB := rs1.c.chQB } } } : Res)) = .next st) :
+    getVar (cloopLoop run ls (f+2) v lim n s).st.c.vars ls.cnt = some (.ins (.int (stepVal ls.cntOp v)) .static) := by
+  have hop : (ls.cntOp == .inc || ls.cntOp == .dec) = true := by
+    rcases hinc with h | h <;> simp [h]
+  rw [cloopLoop]
+  simp only [hgo, hsep, hop, if_true]
+  simp only [] at hbody
+  rw [hbody]
+  simp only []
+  rw [cloop_no_iteration_binds run ls f _ lim (n+1) _ hstop]
+
 /-! Non-vacuity. -/
+example : loopAllows .lt 5 3 = some false := by decide
 example : getVar (setVar (setVar [] (lit "a") (.bytes (lit "x"))) (lit "a") (.cntr 5)) (lit "a") = some (.cntr 5) := by rfl
 example : getVar (setVar (setVar [] (lit "a") (.bytes (lit "x"))) (lit "b") (.cntr 5)) (lit "a") = some (.bytes (lit "x")) := by rfl
 example : wrap64 (9223372036854775807 + 2) = -9223372036854775807 := by decide
